@@ -141,6 +141,50 @@ def corpus(n, seed):
     return schemas
 
 
+def mapf(name, tag, kt, vty):
+    return {"name": name, "tag": tag, "label": "map", "ty": {"map": [kt, vty]}, "oneof": "", "packed": False, "packed_opt": None}
+
+
+def runtime_kinds():
+    """Schema of the hand-written messages in harness/gencases/src/pbkinds.rs: the runtime codecs pilota-build never selects
+    (String / Vec<u8> targets, packed encoders, btree maps, groups, well-known wrapper messages)."""
+    p3, p2 = "proto3", "proto2"
+    msgs = [
+        {"name": "KLeaf", "syntax": p3, "fields": [field("a", 1, "singular", s("int32")), field("b", 2, "singular", s("string"))]},
+        {"name": "KStr", "syntax": p3, "fields": [
+            field("s", 1, "singular", s("string")), field("os", 2, "optional", s("string")), field("rs", 3, "repeated", s("string")),
+            field("v", 4, "singular", s("bytes")), field("ov", 5, "optional", s("bytes")), field("rv", 16, "repeated", s("bytes")),
+            field("tail", 17, "singular", s("int32"))]},
+        {"name": "KPacked", "syntax": p3, "fields": [
+            field("a", 1, "repeated", s("int32"), packed_opt=True), field("b", 2, "repeated", s("sint64"), packed_opt=True),
+            field("c", 3, "repeated", s("fixed32"), packed_opt=True), field("d", 4, "repeated", s("double"), packed_opt=True),
+            field("f", 5, "repeated", s("bool"), packed_opt=True), field("g", 16, "repeated", s("uint64"), packed_opt=True),
+            field("h", 17, "repeated", s("sfixed64"), packed_opt=True), field("i", 18, "repeated", s("float"), packed_opt=True),
+            field("j", 2048, "repeated", s("sint32"), packed_opt=True), field("tail", 19, "singular", s("int32"))]},
+        {"name": "KBtree", "syntax": p3, "fields": [
+            mapf("a", 1, "int32", s("sint64")), mapf("b", 2, "string", s("string")), mapf("c", 3, "uint64", {"msg": "KLeaf"}),
+            mapf("d", 16, "bool", s("bytes")), mapf("z", 17, "string", s("double")), field("tail", 18, "singular", s("int32"))]},
+        {"name": "KGroup", "syntax": p2, "fields": [
+            field("g", 1, "optional", {"msg": "KLeaf", "grp": True}, syntax=p2), field("rg", 2, "repeated", {"msg": "KLeaf", "grp": True}, syntax=p2),
+            field("tail", 3, "optional", s("int32"), syntax=p2), field("deep", 16, "optional", {"msg": "KGroup", "grp": True}, syntax=p2)]},
+        {"name": "StringValue", "syntax": p3, "fields": [field("value", 1, "singular", s("string"))]},
+        {"name": "BytesValue", "syntax": p3, "fields": [field("value", 1, "singular", s("bytes"))]},
+        {"name": "Int64Value", "syntax": p3, "fields": [field("value", 1, "singular", s("int64"))]},
+        {"name": "BoolValue", "syntax": p3, "fields": [field("value", 1, "singular", s("bool"))]},
+        {"name": "DoubleValue", "syntax": p3, "fields": [field("value", 1, "singular", s("double"))]},
+        {"name": "UInt32Value", "syntax": p3, "fields": [field("value", 1, "singular", s("uint32"))]},
+        {"name": "KWrap", "syntax": p3, "fields": [
+            field("sv", 1, "optional", {"msg": "StringValue"}), field("bv", 2, "optional", {"msg": "BytesValue"}),
+            field("iv", 3, "optional", {"msg": "Int64Value"}), field("ov", 4, "optional", {"msg": "BoolValue"}),
+            field("dv", 5, "optional", {"msg": "DoubleValue"}), field("uv", 16, "optional", {"msg": "UInt32Value"}),
+            field("rsv", 17, "repeated", {"msg": "StringValue"}), field("tail", 18, "singular", s("int32"))]},
+    ]
+    return {"name": "pbk", "syntax": p3, "package": "", "enums": [], "messages": msgs, "runtime": True,
+            "rust": {"KLeaf": "@pbk::KLeaf", "KStr": "@pbk::KStr", "KPacked": "@pbk::KPacked", "KBtree": "@pbk::KBtree", "KGroup": "@pbk::KGroup",
+                     "KWrap": "@pbk::KWrap", "StringValue": None, "BytesValue": None, "Int64Value": None, "BoolValue": None,
+                     "DoubleValue": None, "UInt32Value": None}}
+
+
 def for_tla(sch):
     return {"name": sch["name"], "syntax": sch["syntax"],
             "messages": [{"name": m["name"], "syntax": m["syntax"],
